@@ -47,6 +47,14 @@ func (tp *TransportParameters) PopulateFromUQUIC(quicparams tls.TransportParamet
 			if v, ok := uquicVarintValue(param); ok {
 				tp.MaxUniStreamNum = protocol.StreamNum(v)
 			}
+		case uint64(maxUDPPayloadSizeParameterID):
+			if v, ok := uquicVarintValue(param); ok {
+				tp.MaxUDPPayloadSize = protocol.ByteCount(v)
+			}
+		case uint64(ackDelayExponentParameterID):
+			if v, ok := uquicVarintValue(param); ok && v <= protocol.MaxAckDelayExponent {
+				tp.AckDelayExponent = uint8(v)
+			}
 		case uint64(maxAckDelayParameterID):
 			if v, ok := uquicVarintValue(param); ok {
 				tp.MaxAckDelay = time.Duration(v) * time.Millisecond
